@@ -8,7 +8,7 @@ reference casts and broadcasts with NumPy itself); fsic is not. Every operation 
 """
 import numpy as np
 
-DTYPES = {'float': float, 'int': int, 'bool': bool, 'str': '<U1'}
+DTYPES = {'float': float, 'int': int, 'bool': bool, 'str': '<U1', 'uint': np.uint32}
 
 
 class InjectedSourceError(Exception):
